@@ -241,7 +241,7 @@ def rule_effect(facts, cg):
 def run(ctx):
     facts = ctx["facts"]
     cg = CallGraph(facts)
-    return [rule_ro(facts, cg), rule_wmc(facts, cg), rule_effect(facts, cg), rule_iso(facts), rule_seg(facts), rule_cursor(facts, "C14-CURSOR", ["glaredb_core"], 1), rule_rowcount(facts), rule_ctascreate(facts), rule_insertcols(facts)]
+    return [rule_ro(facts, cg), rule_wmc(facts, cg), rule_effect(facts, cg), rule_iso(facts), rule_seg(facts), rule_cursor(facts, "C14-CURSOR", ["glaredb_core"], 1), rule_rowcount(facts), rule_ctascreate(facts), rule_insertcols(facts), rule_ctasexists(facts), rule_replace(facts), rule_droptype(facts)]
 
 
 
@@ -414,7 +414,107 @@ CLAIM = {
             "publication is atomic, and that each catalog operator transitively reaches only the mutators of its own statement kind (a CREATE "
             "never drops, an INSERT never touches the catalog). These are isolation-by-construction facts; the sequential meaning of "
             "statement histories is not decided. Plus the chunked-append cursor pairing in the column collection: a loop that subtracts the amount it hands to a copy routine from its remaining count advances the source offset by the same amount (no row stored twice, none lost). Plus: every DataTable::append_batch in INSERT / CREATE TABLE AS is paired with `count += <same batch>.num_rows()` and the reported value is that counter. And: in the CREATE TABLE AS operator no branch on the input batch decides whether the table creation is reached."
-            " Plus INSERTCOLS: the INSERT column list is mapped or refused, never dropped.",
+            " Plus INSERTCOLS: the INSERT column list is mapped or refused, never dropped."
+            " Plus CTASEXISTS: CREATE TABLE IF NOT EXISTS AS learns whether the table existed and appends only behind a flag recording it."
+            " Plus REPLACE: the schema-level create_entry drops the existing entry before creating the replacement."
+            " Plus DROPTYPE: DROP TABLE / DROP VIEW remove an entry only after looking at its type.",
     "note": "trusted: rustc MIR; class-hierarchy call graph; allow-list of mutator callers in rules/c14.py",
     "technique": "static analysis: who-may-call (call graph) + MIR must-pass-through / provenance (rustc_private driver)",
 }
+
+
+def rule_ctasexists(facts):
+    """CREATE TABLE IF NOT EXISTS ... AS SELECT on an existing table is a no-op: the catalog's create_table hands back the existing entry
+    and nothing may be appended or counted. Decided on PhysicalCreateTableAs::poll_execute: (1) the operator learns whether the table was
+    really created - it looks at the entry create_table returned or asks the catalog beforehand; (2) the append is dominated by a
+    branch on a partition-state flag (other than `finished`) that this function assigns."""
+    r = RuleResult("C14-CTASEXISTS", "CREATE TABLE AS learns whether the table already existed and appends only behind a flag that records it", floor=1)
+    recs = facts.fns_matching(lambda i: "create_table_as::PhysicalCreateTableAs" in i and i.endswith("::poll_execute"))
+    if not recs:
+        r.missing_anchor("PhysicalCreateTableAs::poll_execute")
+        return r
+    rec = recs[0]
+    fn = Fn(rec)
+    r.functions.add(fn.id)
+    appends = [c for c in fn.calls() if c.name.endswith("DataTable::append_batch")]
+    creates = [c for c in fn.calls() if c.name.endswith("Schema>::create_table") or c.name.endswith("Schema::create_table")]
+    if not appends or not creates:
+        r.missing_anchor("append_batch / create_table call in PhysicalCreateTableAs::poll_execute")
+        return r
+    learns = [c.name.rsplit("::", 1)[-1] for c in fn.calls()
+              if c.name.rsplit("::", 1)[-1] in ("get_table_or_view", "try_as_table_entry", "entry_type", "require_get_table")]
+    written = set()
+    for b, i, pl, rv, ln in fn.assigns():
+        for p_ in (pl[1] if isinstance(pl, list) and len(pl) > 1 else []):
+            if isinstance(p_, list) and p_[0] == "f" and p_[2].endswith("CreateTableAsPartitionState"):
+                written.add(p_[1])
+    flags = []
+    for b in range(fn.n):
+        t = fn.term(b)
+        if t[0] != "switch" or not all(fn.dominates(b, a.bb) and b != a.bb for a in appends):
+            continue
+        o = fn.origin(t[1], at=b)
+        if o[0] == "arg" and len(o) > 2:
+            for p_ in o[2]:
+                if isinstance(p_, list) and p_[0] == "f" and p_[2].endswith("CreateTableAsPartitionState") and p_[1] != "finished" and p_[1] in written:
+                    flags.append(p_[1])
+    ok = bool(learns) and bool(flags)
+    r.call_sites += len(appends)
+    r.inst({"fn": fn.id, "learns_existence_by": sorted(set(learns)), "append_guard_flags": sorted(set(flags))}, ok)
+    if not ok:
+        r.violate(fn.id, "appends-to-orphan-table", "CREATE TABLE IF NOT EXISTS ... AS SELECT: the operator " +
+                  ("never looks at what create_table returned nor asks the catalog" if not learns else "does not guard the append with a flag it sets") +
+                  ": on an existing table the rows are appended to a table nobody can see and reported as inserted", rec["file"], appends[0].line)
+    return r
+
+
+def rule_replace(facts):
+    """CREATE OR REPLACE has to end with the new entry in place of the old one. The catalog map refuses to create an entry under an
+    existing name, so the schema-level create_entry has to drop the existing entry on the Replace path: it calls CatalogMap::drop_entry
+    and that call can reach the CatalogMap::create_entry call (pre-fix: `OR REPLACE` failed with "Duplicate entry name" and the only
+    way to replace a view was DROP TABLE on it)."""
+    r = RuleResult("C14-REPLACE", "the schema's create_entry drops an existing entry before it creates the replacement (OnConflict::Replace)", floor=1)
+    recs = [x for x in facts.fns_matching(lambda i: i.endswith("MemorySchema::create_entry"))]
+    if not recs:
+        r.missing_anchor("catalog::memory::MemorySchema::create_entry")
+        return r
+    rec = recs[0]
+    fn = Fn(rec)
+    r.functions.add(fn.id)
+    reads_conflict = "OnConflict" in str(rec.get("locals"))
+    drops = [c for c in fn.calls() if c.name.endswith("CatalogMap::drop_entry")]
+    creates = [c for c in fn.calls() if c.name.endswith("CatalogMap::create_entry")]
+    if not creates or not reads_conflict:
+        r.missing_anchor("MemorySchema::create_entry: no CatalogMap::create_entry call / no OnConflict dispatch")
+        return r
+    ok = any(any(cr.bb in fn.reachable_from(d.bb) for cr in creates) for d in drops)
+    r.inst({"fn": fn.id, "drop_calls": len(drops), "create_calls": len(creates), "drop_reaches_create": ok}, ok)
+    if not ok:
+        r.violate(fn.id, "replace-without-drop", "create_entry never drops the existing entry: CREATE OR REPLACE on an existing name fails with a duplicate-entry "
+                  "error instead of replacing it", rec["file"], creates[0].line)
+    return r
+
+
+def rule_droptype(facts):
+    """Tables and views live in one map. DROP TABLE x has to remove a table: the removal from the map is dominated by a look at the
+    entry's type (`DROP TABLE v` silently dropped the view v)."""
+    r = RuleResult("C14-DROPTYPE", "the schema removes an entry for DROP TABLE / DROP VIEW only after looking at the entry's type", floor=1)
+    recs = facts.fns_matching(lambda i: i.endswith("MemorySchema::drop_entry_inner"))
+    if not recs:
+        r.missing_anchor("catalog::memory::MemorySchema::drop_entry_inner")
+        return r
+    rec = recs[0]
+    fn = Fn(rec)
+    r.functions.add(fn.id)
+    drops = [c for c in fn.calls() if c.name.endswith("CatalogMap::drop_entry")]
+    types = [c for c in fn.calls() if c.name.endswith("CatalogEntry::entry_type") or c.name.endswith("try_as_table_entry") or c.name.endswith("try_as_view_entry")]
+    if not drops:
+        r.missing_anchor("drop_entry_inner: no CatalogMap::drop_entry call")
+        return r
+    for d in drops:
+        ok = any(fn.dominates(t.bb, d.bb) for t in types)
+        r.call_sites += 1
+        r.inst({"fn": fn.id, "type_checks": len(types), "dominates_removal": ok}, ok)
+        if not ok:
+            r.violate(fn.id, "drop-ignores-entry-type", "the entry is removed without a look at its type: DROP TABLE on a view's name drops the view", rec["file"], d.line)
+    return r
